@@ -251,6 +251,27 @@ Theorem C13_xobject_dims m trns app14 jpeg o w h :
 Proof. exact (expected_dims m trns app14 jpeg o w h). Qed.
 Print Assumptions C13_xobject_dims.
 
+(* ---- SVG images: the viewBox -> viewport mapping (model/C13Svg.v, preserve_ratio of svg/utils.py) *)
+Require Import WV.model.C13Svg WV.proofs.C13_svg.
+Open Scope Q_scope.
+
+(* for every viewBox (any min-x / min-y), every preserveAspectRatio and every viewport, the viewBox rectangle lands on
+   the whole viewport (none), or on the largest fitting (meet) / smallest covering (slice) rectangle with the viewBox
+   ratio, aligned min / mid / max on each axis *)
+Theorem C13_svg_viewbox_onto_viewport vx vy vw vh intr p w h :
+  0 < vw -> 0 < vh -> 0 <= w -> 0 <= h ->
+  viewbox_placed p vw vh w h (map_rect (preserve_ratio (Some (vx, vy, vw, vh)) intr p w h) vx vy vw vh).
+Proof. exact (viewbox_onto_viewport vx vy vw vh intr p w h). Qed.
+Print Assumptions C13_svg_viewbox_onto_viewport.
+
+Theorem C13_svg_scales vx vy vw vh intr p w h :
+  0 < vw -> 0 < vh ->
+  let '(sx, sy, _, _) := preserve_ratio (Some (vx, vy, vw, vh)) intr p w h in
+  match p with PNone => sx == w / vw /\ sy == h / vh | PAlign _ _ _ => sx == sy end.
+Proof. exact (preserve_ratio_scales vx vy vw vh intr p w h). Qed.
+Print Assumptions C13_svg_scales.
+Open Scope Z_scope.
+
 (* ---- the sizing kernels of weasyprint/layout/replaced.py REGENERATED from the source on every run
    (gen/GenReplaced.v; interpreter base/Py.v; calls between them answered by their own regenerated bodies,
    base/PyLink.v) compute exactly the models used above, for every input; "vres None" is the raised
